@@ -215,7 +215,27 @@ fn crash_inside_mro(ctx: &mut Ctx, ops: &[Op], key_seed: u64, r: &mut Rng) {
         prop: "C12",
         continuation: true,
     };
-    crash::enumerate(ctx, &rec, &o, r);
+    // informational (outside the letter of the property, which promises a clean disk only once
+    // the call has returned): a crash after the first header write recovers a read-only core
+    // whose other header slot still holds the key; a later make_read_only answers false
+    let secret: [u8; 32] = ops::key_from_seed(key_seed).to_bytes();
+    let mut ro_with_secret = 0u64;
+    let mut ro_clean = 0u64;
+    {
+        let mut extra = |s: &mut Sut| -> Result<(), Fail> {
+            if !s.model.writable {
+                if contains_secret(&snapshot(&s.world), &secret).is_some() {
+                    ro_with_secret += 1;
+                } else {
+                    ro_clean += 1;
+                }
+            }
+            Ok(())
+        };
+        crash::enumerate_with(ctx, &rec, &o, r, Some(&mut extra));
+    }
+    ctx.add("info:recovered_read_only_with_key_material_left_in_a_slot", ro_with_secret);
+    ctx.add("info:recovered_read_only_and_clean", ro_clean);
     let after = ctx.counters.get("crash_points").copied().unwrap_or(0);
     ctx.add("crash_points_inside_mro", after - before);
 }
